@@ -88,6 +88,7 @@ fn dispatch(w: &[&str]) -> String {
         "tencpath" => typed::run_encpath(&w[1..]),
         "tdec" => typed::run_dec(&w[1..]),
         "tokenc" => tokop::run_enc(&w[1..]),
+        "tokencs" => tokop::run_enc_split(&w[1..]),
         "tokdec" => tokop::run_dec(&w[1..]),
         _ => "bad-op".into()
     }
